@@ -24,11 +24,17 @@ class Container:
     """
 
     def __init__(self, name, nixfile, parent, itemclass):
-        self._backend = parent._h5group.open_group(name)
         self._itemclass = itemclass
         self._file = nixfile
         self._parent = parent
         self._name = name
+
+    @property
+    def _backend(self):
+        # looked up on every access: the HDF5 group of an emptied link list
+        # is removed from the file and created anew by the next append,
+        # possibly through another handle or another link to the parent
+        return self._parent._h5group.open_group(self._name)
 
     def _inst_item(self, item):
         return self._itemclass(self._file, self._parent, item)
